@@ -20,7 +20,7 @@ OP  base: one block IF with `.eq.`.  Blocks:
                                                                nospace, literal_left
       text that must survive byte-identically                  string_same_stmt, string_other_stmt, comment_inline,
                                                                comment_line, comment_in_block, odd_layout_body, logical_ops,
-                                                               untouched_inline_if, untouched_where (no old-style operator)
+                                                               untouched_inline_if, untouched_where, untouched_if_inline_comment (no old-style operator)
       Fixer traversal (file-level routines only)               second_routine, function_unit, member, in_module
       cross                                                    ubound_check (a complete UBOUND check in the same routine)
 UB  base: assumed-shape a(:, :) with one block IF per dimension (`ubound(a, d) < n` -> stop).  Blocks:
@@ -30,7 +30,8 @@ UB  base: assumed-shape a(:, :) with one block IF per dimension (`ubound(a, d) <
                                                                size_check, lbound_extra, le_operator
       what removing the conditional removes                    else_branch, comment_in_check
       declaration rewrite                                      shared_decl, dimension_attr
-      later uses / untouched text                              ubound_used_elsewhere, whole_array_use, untouched_inline_if
+      later uses / untouched text                              ubound_used_elsewhere, whole_array_use, untouched_inline_if,
+                                                               untouched_if_inline_comment
       caller                                                   actual_larger (actual extents exceed n, m: the checks pass)
       Fixer traversal                                          member, in_module
       cross                                                    old_op_elsewhere
@@ -204,54 +205,105 @@ def declared_names(tokens):
 
 def text_diff(old, new, ub_lines, decl_arrays):
     """(3) + (4).  ub_lines: set of 0-based physical line numbers of the old text that belong to IF constructs checking
-    a reported array; decl_arrays: names of reported arrays.  -> None or (kind, message)"""
+    a reported array; decl_arrays: names of reported arrays.  -> None or (kind, message)
+    The new logical lines must be obtainable from the old ones by (a) keeping a line (canonical tokens equal, raw tokens
+    differ only where an old-style operator became its F90 spelling), (b) deleting a line that lies inside a targeted
+    UBOUND construct, (c) replacing declaration line(s) of reported arrays by declaration line(s) of the same entities.
+    Decided by exhaustive search over all such alignments (identical lines like `end if` make greedy diffs ambiguous)."""
+    import sys
     lo, ln_ = logical_lines(old), logical_lines(new)
-    a = [canon(x['tokens']) for x in lo if x['tokens']]
-    b = [canon(x['tokens']) for x in ln_ if x['tokens']]
     la = [x for x in lo if x['tokens']]
     lb = [x for x in ln_ if x['tokens']]
-    removed_lines = set()
-    sm = difflib.SequenceMatcher(a=a, b=b, autojunk=False)
-    for tag, i1, i2, j1, j2 in sm.get_opcodes():
-        if tag == 'equal':
-            for x, y in zip(la[i1:i2], lb[j1:j2]):
-                for (k1, t1), (k2, t2) in zip(x['tokens'], y['tokens']):
-                    if (k1, t1) != (k2, t2) and not (k1 == 'op' and RELOPS.get(t1) == t2):
-                        return ('other-text-changed', f'line {x["first"] + 1}: token {t1!r} became {t2!r}')
-            continue
-        olds, news = la[i1:i2], lb[j1:j2]
-        deleted = [x for x in olds if all(p in ub_lines for p in range(x['first'], x['last'] + 1))]
-        rest = [x for x in olds if x not in deleted]
-        for x in deleted:
-            removed_lines.update(range(x['first'], x['last'] + 1))
-        if not rest and not news:
-            continue
-        # what is left must be the declaration rewrite of reported arrays: same entities declared
-        def is_decl(x):
-            return ('op', '::') in x['tokens']
-        if rest and all(is_decl(x) for x in rest) and news and all(is_decl(y) for y in news):
-            n_old = sorted(sum((declared_names(x['tokens']) for x in rest), []))
-            n_new = sorted(sum((declared_names(y['tokens']) for y in news), []))
-            if n_old == n_new and any(nm in decl_arrays for nm in n_old):
+    ca = [canon(x['tokens']) for x in la]
+    cb = [canon(x['tokens']) for x in lb]
+
+    def span(x):
+        return set(range(x['first'], x['last'] + 1))
+
+    def keep_ok(x, y):
+        return all((k1, t1) == (k2, t2) or (k1 == 'op' and RELOPS.get(t1) == t2)
+                   for (k1, t1), (k2, t2) in zip(x['tokens'], y['tokens']))
+
+    def is_decl(x):
+        return ('op', '::') in x['tokens']
+
+    deletable = [span(x) <= ub_lines for x in la]
+    memo = {}
+    sys.setrecursionlimit(max(sys.getrecursionlimit(), 10000))
+
+    def go(i, j):
+        """-> tuple of deleted old indices if la[i:] can become lb[j:], else None"""
+        key = (i, j)
+        if key in memo:
+            return memo[key]
+        res = None
+        if i == len(la):
+            res = () if j == len(lb) else None
+        else:
+            if j < len(lb) and ca[i] == cb[j] and keep_ok(la[i], lb[j]):
+                r = go(i + 1, j + 1)
+                if r is not None:
+                    res = r
+            if res is None and deletable[i]:
+                r = go(i + 1, j)
+                if r is not None:
+                    res = (i,) + r
+            if res is None and is_decl(la[i]):
+                # k old declaration lines -> l new declaration lines declaring the same entities, one of them reported
+                for k in range(1, 4):
+                    olds = la[i:i + k]
+                    if len(olds) < k or not all(is_decl(x) for x in olds):
+                        break
+                    n_old = sorted(sum((declared_names(x['tokens']) for x in olds), []))
+                    if not any(nm in decl_arrays for nm in n_old):
+                        continue
+                    for l in range(1, 6):
+                        news = lb[j:j + l]
+                        if len(news) < l or not all(is_decl(y) for y in news):
+                            break
+                        if sorted(sum((declared_names(y['tokens']) for y in news), [])) == n_old:
+                            r = go(i + k, j + l)
+                            if r is not None:
+                                res = r
+                                break
+                    if res is not None:
+                        break
+        memo[key] = res
+        return res
+
+    deleted = go(0, 0)
+    if deleted is None:
+        # describe the first point of divergence with a plain diff
+        sm = difflib.SequenceMatcher(a=ca, b=cb, autojunk=False)
+        for tag, i1, i2, j1, j2 in sm.get_opcodes():
+            if tag == 'equal':
+                bad = next(((x, y) for x, y in zip(la[i1:i2], lb[j1:j2]) if not keep_ok(x, y)), None)
+                if bad:
+                    return ('other-text-changed', f'line {bad[0]["first"] + 1}: {_show(bad[0])[:150]!r} became {_show(bad[1])[:150]!r}')
                 continue
-        first = (rest or olds or [None])[0]
-        return ('other-text-changed',
-                f'old line(s) {[x["first"] + 1 for x in rest]} {" | ".join(_show(x) for x in rest)[:200]!r} vs new '
-                f'{" | ".join(_show(y) for y in news)[:200]!r}' if first is not None else
-                f'new text inserted: {" | ".join(_show(y) for y in news)[:200]!r}')
+            olds = [x for x, d in zip(la[i1:i2], deletable[i1:i2]) if not d] or la[i1:i2]
+            return ('other-text-changed',
+                    f'old line(s) {[x["first"] + 1 for x in olds]} {" | ".join(_show(x) for x in olds)[:200]!r} vs new '
+                    f'{" | ".join(_show(y) for y in lb[j1:j2])[:200]!r}')
+        return ('other-text-changed', 'no admissible alignment of old and new logical lines')
+    removed_lines = set()
+    for i in deleted:
+        removed_lines |= span(la[i])
     # (4) strings and comments outside removed constructs, in order
-    s_old = [t for x in lo if not set(range(x['first'], x['last'] + 1)) <= removed_lines for k, t in x['tokens'] if k == 'str']
+    s_old = [t for x in lo if not (x['tokens'] and span(x) <= removed_lines) for k, t in x['tokens'] if k == 'str']
     s_new = [t for x in ln_ for k, t in x['tokens'] if k == 'str']
     if s_old != s_new:
         return ('string-or-comment-changed', f'string literals {s_old} became {s_new}')
-    c_old = [c for x in lo if not (set(range(x['first'], x['last'] + 1)) <= ub_lines and
-                                   (set(range(x['first'], x['last'] + 1)) <= removed_lines or not x['tokens']))
-             for c in x['comments']]
-    # comments inside a removed construct disappear with it; comment-only lines inside a targeted construct too
-    c_old_all = [c for x in lo for c in x['comments']]
+    c_all = [c for x in lo for c in x['comments']]
+    # comments on removed lines go with them; comment-only lines inside a removed construct may go or stay
+    c_min = [c for x in lo if not (span(x) <= ub_lines and (span(x) <= removed_lines or not x['tokens'])) for c in x['comments']]
     c_new = [c for x in ln_ for c in x['comments']]
-    if c_new not in (c_old, c_old_all):
-        return ('string-or-comment-changed', f'comments {c_old_all} became {c_new}')
+
+    def subseq(small, big):
+        it = iter(big)
+        return all(any(c == d for d in it) for c in small)
+    if not (subseq(c_min, c_new) and subseq(c_new, c_all)):
+        return ('string-or-comment-changed', f'comments {c_all} became {c_new}')
     return None
 
 
@@ -285,6 +337,7 @@ OP_BLOCKS = {
     'string_other_stmt': ["s = 'x .gt. y'", "if (s == 'x .gt. y') then", '  r = r + 0.25', 'end if'],
     'untouched_inline_if': ['if (m > 2) r = r + 2.0'],
     'untouched_where': ['where (b < 0.0) b = 0.5'],
+    'untouched_if_inline_comment': ['if (m > 2) then   ! big m', '  r = r + 2.0', 'end if'],
     'comment_inline': ['if (m .lt. 9) r = r + 1.0   ! keep .lt. "here"'],
     'comment_line': ["! a comment with .eq. and 'quotes'", 'if (m .lt. 9) r = r + 1.0'],
     'comment_in_block': ['if (m .lt. 9) then', '  ! inside: n .ge. m ?', '  r = r + 1.0', 'end if'],
@@ -431,6 +484,8 @@ def ub_program(sw):
         work += ['if (n .eq. 3) then', '  r = r + 1.0', 'end if']
     if 'untouched_inline_if' in sw:
         work += ['if (n > 100) r = r + 2.0']
+    if 'untouched_if_inline_comment' in sw:
+        work += ['if (m > 2) then   ! big m', '  r = r + 2.0', 'end if']
     contains = []
     if 'member' in sw:
         work.append('call inner(a)')
@@ -448,7 +503,8 @@ FAMILIES = {
     'UB': (ub_program, ['reversed', 'combined_or', 'inline_form', 'upper', 'old_op_in_check', 'nested_in_if', 'duplicate_check',
                         'rank1_too', 'partial_other', 'size_check', 'lbound_extra', 'le_operator', 'else_branch',
                         'comment_in_check', 'shared_decl', 'dimension_attr', 'ubound_used_elsewhere', 'whole_array_use',
-                        'actual_larger', 'member', 'in_module', 'old_op_elsewhere', 'untouched_inline_if']),
+                        'actual_larger', 'member', 'in_module', 'old_op_elsewhere', 'untouched_inline_if',
+                        'untouched_if_inline_comment']),
 }
 UB_EXCLUSIVE = [{'reversed', 'inline_form'}, {'reversed', 'size_check'}, {'reversed', 'else_branch'}, {'inline_form', 'size_check'},
                 {'inline_form', 'else_branch'}, {'size_check', 'else_branch'}, {'upper', 'old_op_in_check'}, {'upper', 'le_operator'},
@@ -564,7 +620,7 @@ def fix_text(case, shadow=False):
 def judge(case, r, orig, base=None):
     """verdict for one fix attempt (r from fix_text)"""
     if r['exception']:
-        if r['phase'] == 're-check':
+        if r['phase'] == 're-check' and 'SyntaxError' in r['exception']:
             return dict(verdict='fixed-file-unparsable', detail=r['exception'])
         return dict(verdict='loki-exception', detail=r['exception'])
     if not r['before']:
@@ -598,7 +654,10 @@ def run_case(case, base=None):
     o = xform.build_run([['wrap.f90', wrap(case['sources'][0][1], case['in_module'])]], case['driver'], base=base)
     if not o['ok']:
         return [dict(verdict='HARNESS', detail=f'original fails at {o["stage"]}: {o["err"][-500:]}', shadow=False)]
-    real = judge(case, fix_text(case), o, base=base)
+    ft = fix_text(case)
+    if ft['exception']:
+        ft = fix_text(case)     # a defect fails again; a transient failure of the shared machine does not
+    real = judge(case, ft, o, base=base)
     real['shadow'] = False
     out = [real]
     if real['verdict'] == 'loki-exception' and 'update_metadata' in real['detail']:
@@ -625,7 +684,9 @@ def signature(case, r, singles):
             return 'loki-exception Fortran90OperatorsRule.fix_subroutine: update_metadata does not exist'
     fam = case['family']
     for sw in [None] + list(case['switches']):
-        single = singles.get((fam, sw, r['shadow']))
+        single = singles.get((fam, sw, r['shadow'])) or singles.get((fam, sw, not r['shadow']))
+        if single and single['verdict'] != r['verdict']:
+            single = singles.get((fam, sw, not r['shadow'])) or single
         if single and single['verdict'] == r['verdict'] and (single['verdict'] != 'loki-exception' or
                                                              single['detail'].split('@')[0] == r['detail'].split('@')[0]):
             return f'{r["verdict"]} block={sw or "base"} family={fam}'
@@ -638,6 +699,10 @@ def run(ctx):
     worker.base = str(ctx.scratch)
     ctx.reset_pool()
     results = xform.judge_cases(ctx, cases, worker)
+    if os.environ.get('VERIF_DUMP'):
+        import json
+        with open(os.environ['VERIF_DUMP'], 'w') as fh:
+            json.dump([dict(id=c['id'], results=w['results']) for c, w in zip(cases, results)], fh)
     singles = {}
     for c, w in zip(cases, results):
         if len(c['switches']) <= 1:
